@@ -205,6 +205,10 @@ func loopInvariant(lp *Loop, v ssa.Value) bool {
 		if lp.Body[x.Block()] {
 			// a pure recomputation of invariant operands (len(x), conversions)
 			switch y := v.(type) {
+			case *ssa.UnOp:
+				if cv := canonCell(y); cv != v {
+					return loopInvariant(lp, cv)
+				}
 			case *ssa.Call:
 				if isBuiltinCall(y, "len") {
 					return loopInvariant(lp, y.Call.Args[0])
@@ -223,36 +227,85 @@ func loopInvariant(lp *Loop, v ssa.Value) bool {
 	return false
 }
 
-// rangeIndexLoop: `for i := range s` / `for i := 0; i < len(s); i++` shapes with a monotone counter compared to an invariant bound.
-func rangeIndexLoop(lp *Loop) bool {
-	iff, ok := lp.Header.Instrs[len(lp.Header.Instrs)-1].(*ssa.If)
-	if !ok {
-		return false
+// indexLoopInfo recognises a counting loop in either of its two SSA shapes and returns the value that
+// is the index inside the body, its first value and the invariant bound:
+//
+//	for i := range s            header: inc = phi(-1, inc) + 1; if inc < bound   (index = inc, first = 0)
+//	for i := c; i < bound; i++  header: i = phi(c, i + 1);      if i < bound     (index = i,   first = c)
+func indexLoopInfo(lp *Loop) (idx ssa.Value, start int64, bound ssa.Value, ok bool) {
+	iff, isIf := lp.Header.Instrs[len(lp.Header.Instrs)-1].(*ssa.If)
+	if !isIf {
+		return nil, 0, nil, false
 	}
-	cmp, ok := iff.Cond.(*ssa.BinOp)
-	if !ok || cmp.Op != token.LSS {
-		return false
+	cmp, isB := iff.Cond.(*ssa.BinOp)
+	if !isB {
+		return nil, 0, nil, false
 	}
-	inc, ok := cmp.X.(*ssa.BinOp)
-	if !ok || inc.Op != token.ADD {
-		return false
+	x, y := cmp.X, cmp.Y
+	switch cmp.Op {
+	case token.LSS:
+	case token.GTR:
+		x, y = y, x
+	default:
+		return nil, 0, nil, false
 	}
-	ph, ok := inc.X.(*ssa.Phi)
-	if !ok || ph.Block() != lp.Header {
-		return false
+	if !loopInvariant(lp, y) || !lp.Body[lp.Header.Succs[0]] {
+		return nil, 0, nil, false
 	}
-	if c, ok := constInt(inc.Y); !ok || c != 1 {
-		return false
-	}
-	for _, e := range ph.Edges {
-		if _, isC := constInt(e); isC {
-			continue
-		}
-		if e != ssa.Value(inc) {
+	isInc := func(v ssa.Value, ph *ssa.Phi) bool {
+		b, ok := v.(*ssa.BinOp)
+		if !ok || b.Op != token.ADD || b.X != ssa.Value(ph) {
 			return false
 		}
+		c, ok := constInt(b.Y)
+		return ok && c == 1
 	}
-	return loopInvariant(lp, cmp.Y) && lp.Body[lp.Header.Succs[0]]
+	phiOK := func(ph *ssa.Phi, inc ssa.Value) (int64, bool) {
+		if ph.Block() != lp.Header {
+			return 0, false
+		}
+		var c0 int64
+		seenC := false
+		for _, e := range ph.Edges {
+			if c, isC := constInt(e); isC {
+				if seenC && c != c0 {
+					return 0, false
+				}
+				c0, seenC = c, true
+				continue
+			}
+			if inc != nil {
+				if e != inc {
+					return 0, false
+				}
+			} else if !isInc(e, ph) {
+				return 0, false
+			}
+		}
+		return c0, seenC
+	}
+	// range shape
+	if inc, isBin := x.(*ssa.BinOp); isBin && inc.Op == token.ADD {
+		if ph, isPhi := inc.X.(*ssa.Phi); isPhi && isInc(inc, ph) {
+			if c0, ok := phiOK(ph, inc); ok {
+				return inc, c0 + 1, y, true
+			}
+		}
+		return nil, 0, nil, false
+	}
+	// three-clause shape
+	if ph, isPhi := x.(*ssa.Phi); isPhi {
+		if c0, ok := phiOK(ph, nil); ok {
+			return ph, c0, y, true
+		}
+	}
+	return nil, 0, nil, false
+}
+
+// rangeIndexLoop: `for i := range s` / `for i := 0; i < len(s); i++` shapes with a monotone counter compared to an invariant bound.
+func rangeIndexLoop(lp *Loop) bool {
+	_, _, _, ok := indexLoopInfo(lp)
+	return ok
 }
 
 // taintedByMessage: does integer v depend on a value read from message bytes?
